@@ -187,7 +187,12 @@ func (m *MsgVotesOffer) MarshalCBOR() ([]byte, error) {
 	if len(m.FullVotes) > 0 {
 		return cbor.Encode([]any{m.MessageType, m.FullVotes})
 	}
-	return cbor.Encode([]any{m.MessageType, m.Votes})
+	votes := m.Votes
+	if votes == nil {
+		// An offer without votes is [type, []], not [type, null]
+		votes = []MsgVotesOfferVote{}
+	}
+	return cbor.Encode([]any{m.MessageType, votes})
 }
 
 func (m *MsgVotesOffer) UnmarshalCBOR(data []byte) error {
